@@ -68,6 +68,16 @@ CHECKS = {
         "note": "Trusted: TLC; statement extents from the harness printer; error classes via errors.Is / fixed prefixes. Module files: not yet covered.",
         "technique": "TLA+ reference semantics predicts failing statement and call stack; real error positions validated by containment",
     },
+    "C15": {
+        "text": ("ScriptAPI.tla models Script.Add/Remove/Compile and Compiled.Run/Get/GetAll/IsDefined/Set/Clone with every return value over a "
+                 "script family (incl. a run that fails after a partial effect and a variable named like a builtin). TLC's edge-covering search "
+                 "(VIEW without the history) yields one shortest call history per (abstract state, call) transition; each is replayed on the real "
+                 "API comparing every return value. The FromGo/ToGo tables of the spec are checked on every supported Go kind, through "
+                 "FromInterface, a script run, ToInterface and the typed accessors."),
+        "design_ref": "DESIGN.md 5.9, 8/C15",
+        "note": "Trusted: TLC; the script effects written in the spec; value universe of ints and strings for the histories.",
+        "technique": "TLA+ state machine of the API, edge-covering history generation by TLC, replay into the real API",
+    },
     "C07": {
         "text": ("TLC checks RunContext.tla (PlusCal model of Compiled.RunContext + VM abort protocol) over all interleavings of "
                  "caller/runner/canceller for every program shape and length <= 8: safety (right return value, <=1 instruction after "
